@@ -42,6 +42,11 @@ func rulesExtra4(c *Ctx) {
 	c.ruleI9()
 	c.ruleM6()
 	c.ruleL4()
+	c.ruleI10()
+	c.ruleR3()
+	c.ruleR5()
+	c.ruleJ2()
+	c.ruleR4()
 }
 
 // ---------------------------------------------------------------------------
@@ -1438,6 +1443,26 @@ func staleTarget(t ssa.Value, at ssa.CallInstruction, depth int) string {
 	case *ssa.ChangeType:
 		return staleTarget(x.X, at, depth+1)
 	case *ssa.FieldAddr:
+		// re-initialised before the decode: a store to the same field dominates the call
+		reinit := false
+		eachInstr(at.Parent(), func(in ssa.Instruction) {
+			st, ok := in.(*ssa.Store)
+			if !ok || reinit {
+				return
+			}
+			fa, ok := st.Addr.(*ssa.FieldAddr)
+			if !ok || nf(fa) != nf(x) {
+				return
+			}
+			if st.Block() == at.Block() {
+				reinit = instrIndex(st) < instrIndex(at)
+			} else {
+				reinit = st.Block().Dominates(at.Block())
+			}
+		})
+		if reinit {
+			return ""
+		}
 		// a field of something: of a fresh local struct is fine, of anything else is not
 		if why := staleTarget(x.X, at, depth+1); why != "" {
 			return why
@@ -1808,4 +1833,518 @@ func (c *Ctx) ruleL4() {
 		})
 	}
 	c.floor("L4", "joins of logs fetched with their ancestry", n, 1)
+}
+
+// ---------------------------------------------------------------------------
+// I10
+
+// ruleI10: the picture of the log that a view update installs is taken inside the critical
+// section that installs it. UpdateIndex runs concurrently (every writer refreshes the view
+// after its own append, and so does the replicator after a merge): a picture taken before the
+// lock can be installed after a newer one, and the view then lags the log — an acknowledged
+// Put is not what Get returns — until some later update.
+func (c *Ctx) ruleI10() {
+	n := 0
+	for _, nt := range c.indexImpls() {
+		f := c.methodOf(nt, "UpdateIndex")
+		if f == nil || f.Blocks == nil {
+			continue
+		}
+		ls := c.locksetsOf(f)
+		// locks held (for writing) at the view writes
+		var viewLocks lockset
+		var firstWrite ssa.Instruction
+		eachInstr(f, func(in ssa.Instruction) {
+			isWrite := false
+			switch x := in.(type) {
+			case *ssa.MapUpdate:
+				isWrite = isRecvMap(f, x.Map)
+			case *ssa.Store:
+				if fa, ok := x.Addr.(*ssa.FieldAddr); ok && isRecv(f, fa.X) {
+					isWrite = !strings.HasPrefix(typeStr(fieldVarOf(fa).Type()), "sync.")
+				}
+			case *ssa.Call:
+				if bi, ok := x.Call.Value.(*ssa.Builtin); ok && bi.Name() == "delete" && len(x.Call.Args) == 2 {
+					isWrite = isRecvMap(f, x.Call.Args[0])
+				}
+				// a small method of the same index that writes its maps
+				if g := x.Call.StaticCallee(); g != nil && g.Blocks != nil && g.Signature.Recv() != nil && len(x.Call.Args) > 0 && isRecv(f, x.Call.Args[0]) {
+					st, del := recvMapEffects(g)
+					isWrite = isWrite || st || del
+				}
+			}
+			if !isWrite {
+				return
+			}
+			held := lockset{}
+			for k, m := range ls[in] {
+				if m == "W" {
+					held[k] = m
+				}
+			}
+			if viewLocks == nil {
+				viewLocks, firstWrite = held, in
+			} else {
+				viewLocks = meet(viewLocks, held)
+			}
+		})
+		if firstWrite == nil || len(viewLocks) == 0 {
+			continue // no view write, or the index relies on its callers for exclusion
+		}
+		k := 0
+		eachCall(f, func(call ssa.CallInstruction) {
+			if !c.isLogCall(call, "Values") && !c.isLogCall(call, "GetEntries") && !c.isLogCall(call, "Heads") && !c.isLogCall(call, "Len") {
+				return
+			}
+			if !c.isControlFn(f) {
+				n++
+			}
+			cons := fmt.Sprintf("%s→%s()#under-view-lock#%d", fnKey(f), methodName(call), k)
+			k++
+			missing := []string{}
+			for cls := range viewLocks {
+				if _, ok := ls[call][cls]; !ok {
+					missing = append(missing, cls)
+				}
+			}
+			sort.Strings(missing)
+			if len(missing) == 0 {
+				c.ok("I10", cons, call.Pos(), "the log is read inside the critical section that installs the view")
+			} else {
+				c.bad("I10", cons, call.Pos(), "the picture of the log is taken before "+strings.Join(missing, ", ")+" is held and installed under it: two refreshes can run concurrently (each writer refreshes the view after its own append), the one that looked first can install last, and the view is then older than the log — Get returns the previous value of a key whose newer Put was acknowledged")
+			}
+		})
+	}
+	c.Counts["I10:log reads in locked view updates"] = n
+}
+
+// ---------------------------------------------------------------------------
+// R3
+
+// ruleR3: whoever raises the maximum lets the progress follow. A function that calls a helper
+// which only sets the maximum (and not the progress) must — unless a progress update sits in
+// the same loop (the event loop, where progress arrives by later events) — pass a call that
+// sets the progress on every successful path afterwards. Otherwise the operation ends with
+// progress below maximum although the log is complete.
+func (c *Ctx) ruleR3() {
+	kMax := newKind("set-max", func(call ssa.CallInstruction) bool { return c.isMethodOn(call, "SetMax", ifaceReplInfo) })
+	kProg := newKind("set-progress", func(call ssa.CallInstruction) bool {
+		return c.isMethodOn(call, "SetProgress", ifaceReplInfo)
+	})
+	st := c.storeType()
+	if st == nil {
+		c.floor("R3", "store type", 0, 1)
+		return
+	}
+	n := 0
+	for _, f := range c.methodsOf(st) {
+		if c.isTestFile(f.Pos()) {
+			continue
+		}
+		// the helpers themselves are not callers
+		if c.mustDo(kMax, f, 0) && f.Parent() == nil && !hasCallTo(f, func(call ssa.CallInstruction) bool {
+			return c.isLogCall(call, "Join") || c.isLogCall(call, "Append")
+		}) {
+			continue
+		}
+		k := 0
+		eachInstr(f, func(in ssa.Instruction) {
+			call, ok := in.(ssa.CallInstruction)
+			if !ok {
+				return
+			}
+			if _, isGo := in.(*ssa.Go); isGo {
+				return
+			}
+			if !c.isSite(kMax, in) || c.isSite(kProg, in) {
+				return
+			}
+			if c.isMethodOn(call, "SetMax", ifaceReplInfo) {
+				return // the primitive itself, inside a helper
+			}
+			if !c.isControlFn(f) {
+				n++
+			}
+			cons := fmt.Sprintf("%s→raise-max#progress-follows#%d", fnKey(f), k)
+			k++
+			// same loop as a progress update?
+			if hd := loopHeader(in.Block()); hd != nil {
+				inLoopProg := false
+				eachInstr(f, func(x ssa.Instruction) {
+					if c.isSite(kProg, x) && sameLoop(hd, x.Block()) {
+						inLoopProg = true
+					}
+				})
+				if inLoopProg {
+					c.ok("R3", cons, in.Pos(), "the maximum is raised inside the loop that also advances the progress (event driven)")
+					return
+				}
+			}
+			via := func(x ssa.Instruction) bool { return c.isSite(kProg, x) }
+			if hit, tr := findPath(f, after(in), via, successReturn, nil); hit != nil {
+				c.bad("R3", cons, hit.Pos(), "the maximum is raised here and the operation can return successfully without ever setting the progress: at rest, with the whole log loaded, progress stays below maximum (after LoadFromSnapshot: progress 0, maximum N)", c.trailStr(tr)...)
+			} else {
+				c.ok("R3", cons, in.Pos(), "every successful path after the maximum is raised passes a progress update")
+			}
+		})
+	}
+	c.floor("R3", "max-only status updates", n, 2)
+}
+
+func hasCallTo(f *ssa.Function, pred func(ssa.CallInstruction) bool) bool {
+	found := false
+	eachCall(f, func(call ssa.CallInstruction) {
+		if pred(call) {
+			found = true
+		}
+	})
+	return found
+}
+
+// ---------------------------------------------------------------------------
+// R5
+
+// ruleR5: the status is read, compared and written back in one step. The functions that write
+// the replication status (SetMax / SetProgress) from a value they computed from what they read
+// (GetMax / GetProgress) run on several goroutines — writers, the reader of Load's progress
+// channel, the replicator's event loop. Without a lock held from the read to the write (their
+// own, or one held by every caller), the slower of two callers writes back the smaller value:
+// the status decreases.
+func (c *Ctx) ruleR5() {
+	st := c.storeType()
+	if st == nil {
+		c.floor("R5", "store type", 0, 1)
+		return
+	}
+	n := 0
+	for _, f := range c.methodsOf(st) {
+		if c.isTestFile(f.Pos()) {
+			continue
+		}
+		var reads, writes []ssa.CallInstruction
+		eachCall(f, func(call ssa.CallInstruction) {
+			switch {
+			case c.isMethodOn(call, "GetMax", ifaceReplInfo), c.isMethodOn(call, "GetProgress", ifaceReplInfo):
+				reads = append(reads, call)
+			case c.isMethodOn(call, "SetMax", ifaceReplInfo), c.isMethodOn(call, "SetProgress", ifaceReplInfo):
+				writes = append(writes, call)
+			}
+		})
+		if len(reads) == 0 || len(writes) == 0 {
+			continue
+		}
+		ls := c.locksetsOf(f)
+		el := lockset{}
+		if f.Parent() == nil {
+			el = c.entryLocks(f, 0)
+		}
+		for i, w := range writes {
+			// only writes of a value computed from a read
+			var rv []ssa.Value
+			for _, r := range reads {
+				if r.Value() != nil {
+					rv = append(rv, r.Value())
+				}
+			}
+			d := derived(rv, flowOpts{})
+			dep := false
+			for _, a := range argsOf(w) {
+				if d[a] {
+					dep = true
+				}
+			}
+			if !dep {
+				continue
+			}
+			if !c.isControlFn(f) {
+				n++
+			}
+			cons := fmt.Sprintf("%s→%s#read-modify-write#%d", fnKey(f), methodName(w), i)
+			held := lockset{}
+			for k, v := range el {
+				if v == "W" {
+					held[k] = v
+				}
+			}
+			for k, v := range ls[w] {
+				if v == "W" {
+					held[k] = v
+				}
+			}
+			common := []string{}
+			for cls := range held {
+				okAll := true
+				for _, r := range reads {
+					_, inEntry := el[cls]
+					if _, ok := ls[r][cls]; !ok && !inEntry {
+						okAll = false
+					}
+				}
+				if okAll {
+					common = append(common, cls)
+				}
+			}
+			sort.Strings(common)
+			if len(common) > 0 {
+				c.ok("R5", cons, w.Pos(), "the status is read and written back under "+strings.Join(common, ", "))
+			} else {
+				c.bad("R5", cons, w.Pos(), "the status is read (GetMax/GetProgress), compared and written back with no lock held from the read to the write: these functions run on several goroutines (concurrent writers, Load's progress reader, the replicator's event loop), and the slower of two callers writes back the smaller value it computed earlier — the maximum or the progress decreases while the store is open")
+			}
+		}
+	}
+	c.floor("R5", "status read-modify-write sites", n, 2)
+}
+
+// ---------------------------------------------------------------------------
+// J2
+
+// ruleJ2: at load, every cached head is fetched with at least the limit. The n most recent
+// entries of the log lie within the union of the n most recent ancestors of each head; a
+// per-head fetch length smaller than the limit (the limit divided between the heads, or reduced
+// by what earlier heads brought in) can leave some of them unfetched, and the trim that follows
+// then keeps older entries in their place. The length handed to the head fetch must be the
+// limit itself (after defaulting), an unlimited fetch, or something not derived from it by an
+// operation that can make it smaller.
+func (c *Ctx) ruleJ2() {
+	st := c.storeType()
+	if st == nil {
+		c.floor("J2", "store type", 0, 1)
+		return
+	}
+	n := 0
+	for _, f := range c.methodsOf(st) {
+		if c.isTestFile(f.Pos()) {
+			continue
+		}
+		top := topLevel(f)
+		if top.Name() != "Load" && !strings.HasPrefix(top.Name(), "verifCtl") && !c.calledOnlyFrom(top, "Load") {
+			continue
+		}
+		k := 0
+		eachCall(f, func(call ssa.CallInstruction) {
+			if calleeFull(call) != logMod+".NewFromEntryHash" {
+				return
+			}
+			var lenVal ssa.Value
+			for _, a := range call.Common().Args {
+				p, ok := a.Type().(*types.Pointer)
+				if !ok || !strings.HasSuffix(typeStr(p.Elem()), "FetchOptions") {
+					continue
+				}
+				if l, ok := structLitFields(a)["Length"]; ok {
+					lenVal = l
+				}
+			}
+			if lenVal == nil {
+				return
+			}
+			if k1, known := c.fetchLength(call); known && k1 == 1 {
+				return // the per-entry fallback, not a head fetch
+			}
+			if !c.isControlFn(f) {
+				n++
+			}
+			cons := fmt.Sprintf("%s→head-fetch#length#%d", fnKey(f), k)
+			k++
+			why := shrinks(lenVal, 0, map[ssa.Value]bool{})
+			if why == "" {
+				c.ok("J2", cons, call.Pos(), "the per-head fetch length is the limit itself (or unlimited): nothing on its way can make it smaller")
+			} else {
+				c.bad("J2", cons, call.Pos(), "the length each cached head is fetched with is computed from the limit by "+why+", which can make it smaller than the limit: with several heads (or overlapping histories) some of the n most recent entries are never fetched, and the log shown after the trim holds fewer than min(n, total) entries or older ones in place of newer ones")
+			}
+		})
+	}
+	c.floor("J2", "head fetches at load", n, 1)
+}
+
+// calledOnlyFrom: every static caller of f is (a closure of) the store method named name.
+func (c *Ctx) calledOnlyFrom(f *ssa.Function, name string) bool {
+	found := false
+	okAll := true
+	for _, g := range c.RepoFns {
+		if c.isTestFile(g.Pos()) {
+			continue
+		}
+		eachCall(g, func(call ssa.CallInstruction) {
+			if call.Common().StaticCallee() != f {
+				return
+			}
+			found = true
+			if topLevel(g).Name() != name {
+				okAll = false
+			}
+		})
+	}
+	return found && okAll
+}
+
+// shrinks: some value stored into the cell (followed through cells, phis and parameters filled
+// by static callers) is produced by an operation that can reduce it.
+func shrinks(v ssa.Value, depth int, seen map[ssa.Value]bool) string {
+	if v == nil || seen[v] || depth > 8 {
+		return ""
+	}
+	seen[v] = true
+	switch x := v.(type) {
+	case *ssa.Alloc:
+		for _, r := range *x.Referrers() {
+			if st, ok := r.(*ssa.Store); ok && st.Addr == ssa.Value(x) {
+				if w := shrinks(st.Val, depth+1, seen); w != "" {
+					return w
+				}
+			}
+		}
+	case *ssa.FreeVar:
+		fn := x.Parent()
+		if p := fn.Parent(); p != nil {
+			why := ""
+			eachInstr(p, func(in ssa.Instruction) {
+				if mc, ok := in.(*ssa.MakeClosure); ok && mc.Fn == ssa.Value(fn) {
+					for i, fv := range fn.FreeVars {
+						if fv == x && i < len(mc.Bindings) && why == "" {
+							why = shrinks(mc.Bindings[i], depth+1, seen)
+						}
+					}
+				}
+			})
+			return why
+		}
+	case *ssa.UnOp:
+		return shrinks(x.X, depth+1, seen)
+	case *ssa.Phi:
+		for _, e := range x.Edges {
+			if w := shrinks(e, depth+1, seen); w != "" {
+				return w
+			}
+		}
+	case *ssa.Convert:
+		return shrinks(x.X, depth+1, seen)
+	case *ssa.BinOp:
+		switch x.Op {
+		case token.SUB:
+			return "a subtraction"
+		case token.QUO:
+			return "a division"
+		case token.REM:
+			return "a remainder"
+		case token.SHR:
+			return "a shift"
+		}
+		if w := shrinks(x.X, depth+1, seen); w != "" {
+			return w
+		}
+		return shrinks(x.Y, depth+1, seen)
+	case *ssa.Call:
+		if b, ok := x.Call.Value.(*ssa.Builtin); ok && b.Name() == "min" {
+			return "min()"
+		}
+		if g := x.Call.StaticCallee(); g != nil && g.Blocks != nil && g.Pkg != nil && inRepo(g.Pkg.Pkg) && isIntType(x.Type()) {
+			why := ""
+			eachInstr(g, func(in ssa.Instruction) {
+				if r, ok := in.(*ssa.Return); ok && why == "" {
+					for _, rv := range r.Results {
+						if isIntType(rv.Type()) && why == "" {
+							why = shrinks(rv, depth+1, seen)
+						}
+					}
+				}
+			})
+			return why
+		}
+	}
+	return ""
+}
+
+// ---------------------------------------------------------------------------
+// R4
+
+// ruleR4: a write is counted as soon as it is in the log and its head persisted. In the function that appends a local
+// entry, every path from the successful append to ANY return — including the failing ones that
+// follow (index refresh refused, event not emitted) — passes the status recalculation:
+// the entry is in the log and its head persisted whatever happens next, and a status that does
+// not count it is below the number of entries the store holds, at rest.
+func (c *Ctx) ruleR4() {
+	kProg := newKind("set-progress", func(call ssa.CallInstruction) bool {
+		return c.isMethodOn(call, "SetProgress", ifaceReplInfo)
+	})
+	kApp := newKind("append", func(call ssa.CallInstruction) bool { return c.isLogCall(call, "Append") })
+	st := c.storeType()
+	if st == nil {
+		c.floor("R4", "store type", 0, 1)
+		return
+	}
+	n := 0
+	for _, f := range c.methodsOf(st) {
+		if c.isTestFile(f.Pos()) || f.Parent() != nil {
+			continue
+		}
+		// the outermost function of the write path: it has an append site and is not itself
+		// a helper that only appends and persists (those return the entry to a caller in the store)
+		hasSite := false
+		eachInstr(f, func(in ssa.Instruction) {
+			if c.isSite(kApp, in) {
+				hasSite = true
+			}
+		})
+		if !hasSite {
+			continue
+		}
+		callers := 0
+		for _, g := range c.methodsOf(st) {
+			eachCall(g, func(call ssa.CallInstruction) {
+				if call.Common().StaticCallee() == f {
+					callers++
+				}
+			})
+		}
+		if callers > 0 {
+			continue
+		}
+		k := 0
+		eachInstr(f, func(in ssa.Instruction) {
+			call, ok := in.(ssa.CallInstruction)
+			if !ok || !c.isSite(kApp, in) {
+				return
+			}
+			if !c.isControlFn(f) {
+				n++
+			}
+			cons := fmt.Sprintf("%s→append#counted#%d", fnKey(f), k)
+			k++
+			start, _, tested := okStart(call)
+			if !tested {
+				start = after(call)
+			}
+			// the write counts from the moment its head is persisted: when the persisting Put
+			// is a separate step of this function, start from its success
+			kPut := c.kindPut("")
+			isPutSite := func(x ssa.Instruction) bool {
+				pc, ok := x.(ssa.CallInstruction)
+				if !ok {
+					return false
+				}
+				if _, isGo := x.(*ssa.Go); isGo {
+					return false
+				}
+				return c.isSite(kPut, pc)
+			}
+			if cal := call.Common().StaticCallee(); cal == nil || cal.Blocks == nil || !c.mustDo(kPut, cal, 1) {
+				if ph, _ := findPath(f, start, nil, isPutSite, nil); ph != nil {
+					if ps, _, ptested := okStart(ph.(ssa.CallInstruction)); ptested {
+						start = ps
+					} else {
+						start = after(ph)
+					}
+				}
+			}
+			via := func(x ssa.Instruction) bool { return c.isSite(kProg, x) }
+			anyReturn := func(x ssa.Instruction) bool { _, ok := x.(*ssa.Return); return ok }
+			if hit, tr := findPath(f, start, via, anyReturn, nil); hit != nil {
+				c.bad("R4", cons, hit.Pos(), "after the entry was appended (and its head persisted) the function can return — here on a later failure — without recalculating the replication status: the store then holds one entry more than its status counts, and stays so at rest", c.trailStr(tr)...)
+			} else {
+				c.ok("R4", cons, call.Pos(), "every path from the successful append to a return passes the status recalculation")
+			}
+		})
+	}
+	c.floor("R4", "local write paths", n, 1)
 }
